@@ -33,3 +33,12 @@ Definition jvp_model (d : dfun) (tvars : list (nat * Z)) (tins : list Z) : Z * Z
 Definition grad_inputs (d : dfun) : list Z := map (fun k => partial d (nvars d + k)) (seq 0 (nins d)).
 (* the variables after the call: the side effects of the forward pass, once *)
 Definition vars_after (d : dfun) : list Z := firstn (nvars d) (fwd_vals d).
+
+(* a history of calls on the same bound module (direct calls and calls under nn.vjp / jvp / grad alike): each call starts
+   from the variables the previous one left.  Result: the primal output of every call and the variables at the end. *)
+Definition next_d (d : dfun) : dfun := mkD (d_cols d) (vars_after d ++ skipn (nvars d) (d_vals d)) (d_poly d) (d_bumps d).
+Fixpoint hist (n : nat) (d : dfun) : list Z * list Z :=
+  match n with
+  | O => ([], firstn (nvars d) (d_vals d))
+  | S m => let '(ys, vs) := hist m (next_d d) in (primal d :: ys, vs)
+  end.
